@@ -2,7 +2,7 @@ from dataclasses import dataclass, field
 from tempfile import TemporaryFile
 from xml.sax import handler
 from xml.sax.handler import LexicalHandler
-from xml.sax.saxutils import XMLGenerator
+from xml.sax.saxutils import XMLGenerator, escape
 from xml.sax.xmlreader import AttributesImpl, Locator
 
 from defusedxml.sax import make_parser
@@ -53,6 +53,12 @@ class XMLTransformer(XMLGenerator, LexicalHandler):
         if self._in_cdata:
             # character data of a CDATA section is written verbatim: escaping it would change it
             self._write(content)  # type: ignore
+            return
+        if "\r" in content:
+            # a carriage return can only come from a character reference (the parser normalises line ends):
+            # written literally it would be read back as a line feed
+            self._finish_pending_start_element()  # type: ignore
+            self._write(escape(content, {"\r": "&#13;"}))  # type: ignore
             return
         super().characters(content)
 
